@@ -37,15 +37,16 @@ structure WfInner (S : Schema) (s : Nat) (f : Flags) (m : List Meta) (ks : List 
   keysTerm : ∀ c ∈ keysOf S ks, c.isTerm = true
   keysNoDflt : ∀ c ∈ keysOf S ks, c.flags.dflt = false
   keysList : S.isKind s .list = true ∨ keysOf S ks = []
+  keysSids : S.isKind s .list = true → (keysOf S ks).map (·.sid) = keySids S s
   canon : canonB S ks = true
   kids : wfL S ks = true
 
 theorem wfNode_inner (S : Schema) (s : Nat) (f : Flags) (m : List Meta) (ks : List DNode)
     (h : wfNode S (.inner s f m ks) = true) : WfInner S s f m ks := by
   simp only [wfNode, Bool.and_eq_true, Bool.not_eq_true', List.all_eq_true, Bool.or_eq_true, List.isEmpty_iff] at h
-  obtain ⟨⟨⟨⟨⟨⟨⟨⟨⟨⟨⟨h1, h2⟩, h3⟩, h4⟩, h5⟩, h6⟩, h7⟩, h8⟩, h9⟩, h10⟩, h11⟩, h12⟩ := h
+  obtain ⟨⟨⟨⟨⟨⟨⟨⟨⟨⟨⟨⟨h1, h2⟩, h3⟩, h4⟩, h5⟩, h6⟩, h7⟩, h8⟩, h9⟩, h10⟩, h13⟩, h11⟩, h12⟩ := h
   exact ⟨h1, h2, h3, h4, h5, fun hd => by rcases h6 with h6 | h6 <;> simp_all, h7, h8, fun c hc => (h9 c hc).1,
-    fun c hc => (h9 c hc).2, h10, h11, h12⟩
+    fun c hc => (h9 c hc).2, h10, fun hl => by rcases h13 with h13 | h13 <;> simp_all, h11, h12⟩
 
 structure WfTerm (S : Schema) (s : Nat) (f : Flags) (m : List Meta) : Prop where
   plain : plainSid S s = true
